@@ -44,411 +44,416 @@ def run(ctx):
         ctx.fn(u.qualname(f))
 
     # ---------------- R1 encoder
-    R = 'C11-R1'
-    ebody = body_of(enc)
-    # The encoder is executed abstractly (bit provenance, nothing is run) for every input length
-    # 0..7 with symbolic data bytes: control flow depends only on the length, so each run is a
-    # straight line; every emitted character must be alphabet[RFC 4648 sextet] or '=' in the RFC's
-    # positions.  Any restructuring of the tail handling is accepted as long as this holds.
-    eps = params_of(enc)
-    rets_ = [r_ for r_ in walk(ebody) if r_.get('kind') == 'ReturnStmt' and kids(r_)]
-    sink_rd = None
-    for r_ in rets_:
-        for y_ in walk(r_):
-            if y_.get('kind') == 'DeclRefExpr' and (y_.get('referencedDecl') or {}).get('kind') == 'VarDecl':
-                sink_rd = y_['referencedDecl']
-    ctx.require(sink_rd is not None, 'base64_encode: returned string variable not found')
-    X = BVExec(u)
-    for n in range(0, 33 if ctx.tier == 'thorough' else 8):
-        env0 = {eps[0]['id']: Ptr('D', '0', 0), eps[1]['id']: const_bv(n, 64), eps[2]['id']: Ptr('A', '0', 0), ('vec', sink_rd.get('name')): []}
-        X.notes = []
-        try:
-            X.run([ebody], env0, 0)
-        except Unsupported as e:
-            ctx.undecided(R, 'encode|length-%d' % n, enc, 'base64_encode is outside the supported statement forms (%s)' % e)
-            continue
-        except Exception as e:
-            if e.__class__.__name__ != '_Ret':
-                raise
-        out = env0[('vec', sink_rd.get('name'))]
-        want = []
-        for blk in range((n + 2) // 3):
-            k = blk * 3
-            have = min(3, n - k)
-            for j in range(4):
-                if j <= have:
-                    cells = []
-                    for t in range(6):     # LSB first
-                        bitpos = j * 6 + (5 - t)      # 0 = MSB of the 24-bit group
-                        byte, bb = divmod(bitpos, 8)
-                        cells.append(('i', ('mem', 'D', '0', k + byte), 7 - bb) if byte < have else 0)
-                    want.append(tab_cells('A', 0, cells, 8))
-                else:
-                    want.append(const_bv(ord('='), 8).b)
-        okn = len(out) == len(want)
-        why = 'emits %d characters for %d input bytes, RFC 4648 requires %d' % (len(out), n, len(want))
-        if okn:
-            for j, (g, w_) in enumerate(zip(out, want)):
-                if list(g.b[:8]) != list(w_):
-                    pad = w_ == const_bv(ord('='), 8).b
-                    okn, why = False, 'character %d for a %d-byte input must be %s; the function emits %s' % (
-                        j, n, "the padding '='" if pad else 'alphabet[the RFC 4648 sextet of the input bits]',
-                        "'%s'" % chr(bv_const(g)) if bv_const(g) is not None else ('a value that depends on the VALUE of an input byte' if T in g.b else 'alphabet[a different bit selection]: %s' % cell_str(g.b[0])))
-                    break
-        if okn and X.notes:
-            okn, why = False, X.notes[0]
-        ctx.check(okn, R, 'encode|length-%d' % n, enc, '%d input bytes -> %d characters, each alphabet[RFC 4648 sextet] or padding' % (n, len(want)), why)
+    with ctx.section('C11-R1', 'C11'):
+        R = 'C11-R1'
+        ebody = body_of(enc)
+        # The encoder is executed abstractly (bit provenance, nothing is run) for every input length
+        # 0..7 with symbolic data bytes: control flow depends only on the length, so each run is a
+        # straight line; every emitted character must be alphabet[RFC 4648 sextet] or '=' in the RFC's
+        # positions.  Any restructuring of the tail handling is accepted as long as this holds.
+        eps = params_of(enc)
+        rets_ = [r_ for r_ in walk(ebody) if r_.get('kind') == 'ReturnStmt' and kids(r_)]
+        sink_rd = None
+        for r_ in rets_:
+            for y_ in walk(r_):
+                if y_.get('kind') == 'DeclRefExpr' and (y_.get('referencedDecl') or {}).get('kind') == 'VarDecl':
+                    sink_rd = y_['referencedDecl']
+        ctx.require(sink_rd is not None, 'base64_encode: returned string variable not found')
+        X = BVExec(u)
+        for n in range(0, 33 if ctx.tier == 'thorough' else 8):
+            env0 = {eps[0]['id']: Ptr('D', '0', 0), eps[1]['id']: const_bv(n, 64), eps[2]['id']: Ptr('A', '0', 0), ('vec', sink_rd.get('name')): []}
+            X.notes = []
+            try:
+                X.run([ebody], env0, 0)
+            except Unsupported as e:
+                ctx.undecided(R, 'encode|length-%d' % n, enc, 'base64_encode is outside the supported statement forms (%s)' % e)
+                continue
+            except Exception as e:
+                if e.__class__.__name__ != '_Ret':
+                    raise
+            out = env0[('vec', sink_rd.get('name'))]
+            want = []
+            for blk in range((n + 2) // 3):
+                k = blk * 3
+                have = min(3, n - k)
+                for j in range(4):
+                    if j <= have:
+                        cells = []
+                        for t in range(6):     # LSB first
+                            bitpos = j * 6 + (5 - t)      # 0 = MSB of the 24-bit group
+                            byte, bb = divmod(bitpos, 8)
+                            cells.append(('i', ('mem', 'D', '0', k + byte), 7 - bb) if byte < have else 0)
+                        want.append(tab_cells('A', 0, cells, 8))
+                    else:
+                        want.append(const_bv(ord('='), 8).b)
+            okn = len(out) == len(want)
+            why = 'emits %d characters for %d input bytes, RFC 4648 requires %d' % (len(out), n, len(want))
+            if okn:
+                for j, (g, w_) in enumerate(zip(out, want)):
+                    if list(g.b[:8]) != list(w_):
+                        pad = w_ == const_bv(ord('='), 8).b
+                        okn, why = False, 'character %d for a %d-byte input must be %s; the function emits %s' % (
+                            j, n, "the padding '='" if pad else 'alphabet[the RFC 4648 sextet of the input bits]',
+                            "'%s'" % chr(bv_const(g)) if bv_const(g) is not None else ('a value that depends on the VALUE of an input byte' if T in g.b else 'alphabet[a different bit selection]: %s' % cell_str(g.b[0])))
+                        break
+            if okn and X.notes:
+                okn, why = False, X.notes[0]
+            ctx.check(okn, R, 'encode|length-%d' % n, enc, '%d input bytes -> %d characters, each alphabet[RFC 4648 sextet] or padding' % (n, len(want)), why)
     # ---------------- R6 base64 by evaluation (E-TABLE) over the property's own finite domain
-    R = 'C11-R6'
-    import base64 as _b64
-    from peval import PEval as _PE6, Str as _S6, Lit as _L6, Undecided as _U6, Fault as _F6, Thrown as _T6
-    P6 = _PE6([u], max_depth=8)
-    STD = b'ABCDEFGHIJKLMNOPQRSTUVWXYZabcdefghijklmnopqrstuvwxyz0123456789+/'
-    URL = STD[:62] + b'-_'
-    r6 = {'ok': 0, 'bad': None, 'und': None}
+    with ctx.section('C11-R6', 'C11'):
+        R = 'C11-R6'
+        import base64 as _b64
+        from peval import PEval as _PE6, Str as _S6, Lit as _L6, Undecided as _U6, Fault as _F6, Thrown as _T6
+        P6 = _PE6([u], max_depth=8)
+        STD = b'ABCDEFGHIJKLMNOPQRSTUVWXYZabcdefghijklmnopqrstuvwxyz0123456789+/'
+        URL = STD[:62] + b'-_'
+        r6 = {'ok': 0, 'bad': None, 'und': None}
 
-    def ref_decode(txt, alpha):
-        if len(txt) % 4:
-            return None
-        out = bytearray()
-        for i_ in range(0, len(txt), 4):
-            blk = txt[i_:i_ + 4]
-            last = i_ + 4 == len(txt)
-            npad = 2 if blk[2:] == b'==' else 1 if blk[3:] == b'=' else 0
-            if npad and not last:
+        def ref_decode(txt, alpha):
+            if len(txt) % 4:
                 return None
-            body_ = blk[:4 - npad]
-            if any(c_ not in alpha for c_ in body_):
-                return None
-            v = 0
-            for c_ in body_:
-                v = (v << 6) | alpha.index(c_)
-            v <<= 6 * npad
-            out += v.to_bytes(3, 'big')[:3 - npad]
-        return bytes(out)
+            out = bytearray()
+            for i_ in range(0, len(txt), 4):
+                blk = txt[i_:i_ + 4]
+                last = i_ + 4 == len(txt)
+                npad = 2 if blk[2:] == b'==' else 1 if blk[3:] == b'=' else 0
+                if npad and not last:
+                    return None
+                body_ = blk[:4 - npad]
+                if any(c_ not in alpha for c_ in body_):
+                    return None
+                v = 0
+                for c_ in body_:
+                    v = (v << 6) | alpha.index(c_)
+                v <<= 6 * npad
+                out += v.to_bytes(3, 'big')[:3 - npad]
+            return bytes(out)
 
-    def one_dec(txt, alpha, alpha_arg):
-        if r6['und']:
-            return
-        want = ref_decode(txt, alpha)
-        try:
-            got = P6.call_with(dec, [_L6(txt), len(txt), alpha_arg])
-            got = bytes(got.b) if isinstance(got, _S6) else ('?', got)
-            thrown = None
-        except _T6 as e_:
-            got, thrown = None, e_
-        except _F6 as e_:
-            r6['bad'] = r6['bad'] or ('decode', txt, 'evaluation faults: %s' % e_, None)
-            return
-        except _U6 as e_:
-            r6['und'] = str(e_)
-            return
-        if want is None:
-            if thrown is None:
-                r6['bad'] = r6['bad'] or ('decode', txt, 'is accepted and decodes to %r; it must be rejected with invalid_argument' % (got,), None)
-            elif thrown.node is not None and not any('invalid_argument' in (dtype(kids(t_)[0]) or '') for t_ in walk(thrown.node) if t_.get('kind') == 'CXXThrowExpr' and kids(t_)):
-                r6['bad'] = r6['bad'] or ('decode', txt, 'is rejected with %s, not invalid_argument' % [dtype(kids(t_)[0]) for t_ in walk(thrown.node) if t_.get('kind') == 'CXXThrowExpr' and kids(t_)], thrown.node)
+        def one_dec(txt, alpha, alpha_arg):
+            if r6['und']:
+                return
+            want = ref_decode(txt, alpha)
+            try:
+                got = P6.call_with(dec, [_L6(txt), len(txt), alpha_arg])
+                got = bytes(got.b) if isinstance(got, _S6) else ('?', got)
+                thrown = None
+            except _T6 as e_:
+                got, thrown = None, e_
+            except _F6 as e_:
+                r6['bad'] = r6['bad'] or ('decode', txt, 'evaluation faults: %s' % e_, None)
+                return
+            except _U6 as e_:
+                r6['und'] = str(e_)
+                return
+            if want is None:
+                if thrown is None:
+                    r6['bad'] = r6['bad'] or ('decode', txt, 'is accepted and decodes to %r; it must be rejected with invalid_argument' % (got,), None)
+                elif thrown.node is not None and not any('invalid_argument' in (dtype(kids(t_)[0]) or '') for t_ in walk(thrown.node) if t_.get('kind') == 'CXXThrowExpr' and kids(t_)):
+                    r6['bad'] = r6['bad'] or ('decode', txt, 'is rejected with %s, not invalid_argument' % [dtype(kids(t_)[0]) for t_ in walk(thrown.node) if t_.get('kind') == 'CXXThrowExpr' and kids(t_)], thrown.node)
+                else:
+                    r6['ok'] += 1
+            elif thrown is not None:
+                r6['bad'] = r6['bad'] or ('decode', txt, 'is valid base64 for %r but is rejected' % want, thrown.node)
+            elif got != want:
+                r6['bad'] = r6['bad'] or ('decode', txt, 'decodes to %r; RFC 4648 gives %r' % (got, want), None)
             else:
                 r6['ok'] += 1
-        elif thrown is not None:
-            r6['bad'] = r6['bad'] or ('decode', txt, 'is valid base64 for %r but is rejected' % want, thrown.node)
-        elif got != want:
-            r6['bad'] = r6['bad'] or ('decode', txt, 'decodes to %r; RFC 4648 gives %r' % (got, want), None)
-        else:
-            r6['ok'] += 1
 
-    def one_enc(data, alpha, alpha_arg):
+        def one_enc(data, alpha, alpha_arg):
+            if r6['und']:
+                return
+            want = _b64.b64encode(data, altchars=alpha[62:]) if alpha is not STD else _b64.b64encode(data)
+            try:
+                got = P6.call_with(enc, [_L6(data), len(data), alpha_arg])
+                got = bytes(got.b) if isinstance(got, _S6) else None
+            except (_T6, _F6) as e_:
+                r6['bad'] = r6['bad'] or ('encode', data, 'evaluation throws / faults: %s' % e_, None)
+                return
+            except _U6 as e_:
+                r6['und'] = str(e_)
+                return
+            if got != want:
+                r6['bad'] = r6['bad'] or ('encode', data, 'encodes to %r; RFC 4648 gives %r' % (got, want), None)
+            else:
+                r6['ok'] += 1
+            one_dec(want, alpha, alpha_arg)
+        import itertools as _it
+        for alpha, arg in ((STD, None), (URL, _L6(URL + b'\0'))):
+            red = [alpha[0], alpha[16], alpha[63], ord('='), ord('!')] + ([ord('-')] if alpha is STD else [ord('+')])
+            for n_ in (0, 1, 2, 3, 4):
+                for t_ in _it.product(red, repeat=n_):
+                    one_dec(bytes(t_), alpha, arg)
+            for t_ in (b'AAAAA', b'AAAAAA', b'AAAAAAA', b'AAAA=', b'AAAAAA==A'):
+                one_dec(t_, alpha, arg)
+            if ctx.tier == 'thorough' and alpha is STD:
+                for t_ in _it.product([alpha[0], alpha[63], ord('='), ord('!')], repeat=8):
+                    one_dec(bytes(t_), alpha, arg)
+            else:
+                four = [alpha[5], alpha[63], ord('='), ord('!')]
+                good = bytes([alpha[20], alpha[1], alpha[9], alpha[30]])
+                for t_ in _it.product(four, repeat=4):
+                    one_dec(bytes(t_) + good, alpha, arg)
+                    one_dec(good + bytes(t_), alpha, arg)
+            for b_ in range(256):
+                one_enc(bytes([b_]), alpha, arg)
+            one_enc(b'', alpha, arg)
+            vals = range(256) if ctx.tier == 'thorough' and alpha is STD else (0, 1, 0x3F, 0x40, 0x7F, 0x80, 0xFB, 0xFC, 0xFE, 0xFF)
+            for a_ in vals:
+                for b_ in vals:
+                    one_enc(bytes([a_, b_]), alpha, arg)
+            for t_ in _it.product((0, 0x3F, 0x80, 0xFB, 0xFF), repeat=3):
+                one_enc(bytes(t_), alpha, arg)
+            for t_ in _it.product((0, 0xFF, 0x3E), repeat=5):
+                one_enc(bytes(t_), alpha, arg)
         if r6['und']:
-            return
-        want = _b64.b64encode(data, altchars=alpha[62:]) if alpha is not STD else _b64.b64encode(data)
-        try:
-            got = P6.call_with(enc, [_L6(data), len(data), alpha_arg])
-            got = bytes(got.b) if isinstance(got, _S6) else None
-        except (_T6, _F6) as e_:
-            r6['bad'] = r6['bad'] or ('encode', data, 'evaluation throws / faults: %s' % e_, None)
-            return
-        except _U6 as e_:
-            r6['und'] = str(e_)
-            return
-        if got != want:
-            r6['bad'] = r6['bad'] or ('encode', data, 'encodes to %r; RFC 4648 gives %r' % (got, want), None)
+            ctx.undecided(R, 'base64|evaluated', dec, 'base64_encode / base64_decode could not be evaluated (%s)' % r6['und'])
+        elif r6['bad']:
+            ctx.bad(R, 'base64|evaluated', r6['bad'][3] or (dec if r6['bad'][0] == 'decode' else enc), 'base64 %s of %r %s' % (r6['bad'][0], r6['bad'][1], r6['bad'][2]))
         else:
-            r6['ok'] += 1
-        one_dec(want, alpha, alpha_arg)
-    import itertools as _it
-    for alpha, arg in ((STD, None), (URL, _L6(URL + b'\0'))):
-        red = [alpha[0], alpha[16], alpha[63], ord('='), ord('!')] + ([ord('-')] if alpha is STD else [ord('+')])
-        for n_ in (0, 1, 2, 3, 4):
-            for t_ in _it.product(red, repeat=n_):
-                one_dec(bytes(t_), alpha, arg)
-        for t_ in (b'AAAAA', b'AAAAAA', b'AAAAAAA', b'AAAA=', b'AAAAAA==A'):
-            one_dec(t_, alpha, arg)
-        if ctx.tier == 'thorough' and alpha is STD:
-            for t_ in _it.product([alpha[0], alpha[63], ord('='), ord('!')], repeat=8):
-                one_dec(bytes(t_), alpha, arg)
-        else:
-            four = [alpha[5], alpha[63], ord('='), ord('!')]
-            good = bytes([alpha[20], alpha[1], alpha[9], alpha[30]])
-            for t_ in _it.product(four, repeat=4):
-                one_dec(bytes(t_) + good, alpha, arg)
-                one_dec(good + bytes(t_), alpha, arg)
-        for b_ in range(256):
-            one_enc(bytes([b_]), alpha, arg)
-        one_enc(b'', alpha, arg)
-        vals = range(256) if ctx.tier == 'thorough' and alpha is STD else (0, 1, 0x3F, 0x40, 0x7F, 0x80, 0xFB, 0xFC, 0xFE, 0xFF)
-        for a_ in vals:
-            for b_ in vals:
-                one_enc(bytes([a_, b_]), alpha, arg)
-        for t_ in _it.product((0, 0x3F, 0x80, 0xFB, 0xFF), repeat=3):
-            one_enc(bytes(t_), alpha, arg)
-        for t_ in _it.product((0, 0xFF, 0x3E), repeat=5):
-            one_enc(bytes(t_), alpha, arg)
-    if r6['und']:
-        ctx.undecided(R, 'base64|evaluated', dec, 'base64_encode / base64_decode could not be evaluated (%s)' % r6['und'])
-    elif r6['bad']:
-        ctx.bad(R, 'base64|evaluated', r6['bad'][3] or (dec if r6['bad'][0] == 'decode' else enc), 'base64 %s of %r %s' % (r6['bad'][0], r6['bad'][1], r6['bad'][2]))
-    else:
-        ctx.ok(R, 'base64|evaluated', dec, '%d encode / decode cases agree with RFC 4648 (python base64 and a reference decoder): every string of length 0..5 over {valid, pad, invalid} characters, 8-character strings, all single bytes, byte pairs and tuples, both alphabets' % r6['ok'])
-    r6_decides = not r6['und'] and not r6['bad']
-    R = 'C11-R1'
-    deferred = []
-
-    class _Shape(Exception):
-        pass
-
-    def need(cond, msg):
-        if not cond:
-            raise _Shape(msg)
-
-    def decoder_structure():
+            ctx.ok(R, 'base64|evaluated', dec, '%d encode / decode cases agree with RFC 4648 (python base64 and a reference decoder): every string of length 0..5 over {valid, pad, invalid} characters, 8-character strings, all single bytes, byte pairs and tuples, both alphabets' % r6['ok'])
+        r6_decides = not r6['und'] and not r6['bad']
         R = 'C11-R1'
-        # decoder
-        dbody = body_of(dec)
-        dpush = [c for c in walk(dbody) if c.get('kind') == 'CXXMemberCallExpr' and call_name(c) == 'push_back' and canon(member_call_object(c)) == 'ret']
-        need(len(dpush) == 6, 'base64_decode: expected 6 output sites, found %d' % len(dpush))
-        syms = {}
-        for v in walk(dbody):
-            if v.get('kind') == 'VarDecl' and v.get('name') in ('c1', 'c2', 'c3', 'c4') and kids(v):
-                syms[v['name']] = v
-        need(len(syms) == 4, 'base64_decode: symbol variables c1..c4 not found')
-        env = {v['id']: sym_bv(nm, 8, False, free_bits=6) for nm, v in syms.items()}
-        by_blk = {}
-        for p in dpush:
-            by_blk.setdefault(id(enclosing(p, ('CompoundStmt',))), []).append(p)
-        for ps in by_blk.values():
-            nout = len(ps)
-            label = {3: 'full', 2: 'pad1', 1: 'pad2'}[nout]
-            for j, p in enumerate(ps):
-                I.notes = []
-                v = I.eval(call_args(p)[0], env)
-                v8 = BV(8, v.b[:8])
-                bad = expect_lanes(v8, byte_spec(j))
-                ctx.check(not bad, R, 'decode|%s|byte%d' % (label, j), p, 'byte %d = RFC 4648 bits of the sextets' % j, 'output byte %d of the %s branch: %s' % (j, label, describe_mismatch(bad)))
-        # alphabets
-        for nm in ('DEFAULT_ALPHABET', 'URLSAFE_ALPHABET'):
-            vd = next((v for v in u.by_id.values() if v.get('kind') == 'VarDecl' and v.get('name') == nm and kids(v)), None)
-            lit = string_lit(next((x for x in walk(vd) if x.get('kind') == 'StringLiteral'), {})) if vd is not None else None
-            ok = lit is not None and len(lit) == 64 and len(set(lit)) == 64 and ord('=') not in lit and all(c < 128 for c in lit)
-            ok = ok and lit[:62] == b'ABCDEFGHIJKLMNOPQRSTUVWXYZabcdefghijklmnopqrstuvwxyz0123456789' and lit[62:] == (b'+/' if nm.startswith('DEFAULT') else b'-_')
-            ctx.check(ok, R, 'alphabet|' + nm, vd or enc, '64 distinct ASCII characters, RFC 4648 order, no \'=\'', 'alphabet %s is %r' % (nm, lit))
-        inv = next((v for v in walk(dbody) if v.get('kind') == 'VarDecl' and 'inverse' in (v.get('name') or '')), None)
-        okf = inv is not None and not inv.get('storageClass') and not inv.get('tls')
-        if inv is not None and not okf:
-            # a cached table is acceptable when the rebuild resets all 256 entries to invalid right before refilling
-            for c in walk(dbody):
-                if c.get('kind') == 'CXXMemberCallExpr' and call_name(c) in ('assign',) and canon(member_call_object(c)) == inv.get('name'):
-                    a = call_args(c)
-                    if len(a) == 2 and int_value(a[0]) == 0x100 and (int_value(a[1]) or 0) & 0xFF == 0xFF:
+        deferred = []
+
+        class _Shape(Exception):
+            pass
+
+        def need(cond, msg):
+            if not cond:
+                raise _Shape(msg)
+
+        def decoder_structure():
+            R = 'C11-R1'
+            # decoder
+            dbody = body_of(dec)
+            dpush = [c for c in walk(dbody) if c.get('kind') == 'CXXMemberCallExpr' and call_name(c) == 'push_back' and canon(member_call_object(c)) == 'ret']
+            need(len(dpush) == 6, 'base64_decode: expected 6 output sites, found %d' % len(dpush))
+            syms = {}
+            for v in walk(dbody):
+                if v.get('kind') == 'VarDecl' and v.get('name') in ('c1', 'c2', 'c3', 'c4') and kids(v):
+                    syms[v['name']] = v
+            need(len(syms) == 4, 'base64_decode: symbol variables c1..c4 not found')
+            env = {v['id']: sym_bv(nm, 8, False, free_bits=6) for nm, v in syms.items()}
+            by_blk = {}
+            for p in dpush:
+                by_blk.setdefault(id(enclosing(p, ('CompoundStmt',))), []).append(p)
+            for ps in by_blk.values():
+                nout = len(ps)
+                label = {3: 'full', 2: 'pad1', 1: 'pad2'}[nout]
+                for j, p in enumerate(ps):
+                    I.notes = []
+                    v = I.eval(call_args(p)[0], env)
+                    v8 = BV(8, v.b[:8])
+                    bad = expect_lanes(v8, byte_spec(j))
+                    ctx.check(not bad, R, 'decode|%s|byte%d' % (label, j), p, 'byte %d = RFC 4648 bits of the sextets' % j, 'output byte %d of the %s branch: %s' % (j, label, describe_mismatch(bad)))
+            # alphabets
+            for nm in ('DEFAULT_ALPHABET', 'URLSAFE_ALPHABET'):
+                vd = next((v for v in u.by_id.values() if v.get('kind') == 'VarDecl' and v.get('name') == nm and kids(v)), None)
+                lit = string_lit(next((x for x in walk(vd) if x.get('kind') == 'StringLiteral'), {})) if vd is not None else None
+                ok = lit is not None and len(lit) == 64 and len(set(lit)) == 64 and ord('=') not in lit and all(c < 128 for c in lit)
+                ok = ok and lit[:62] == b'ABCDEFGHIJKLMNOPQRSTUVWXYZabcdefghijklmnopqrstuvwxyz0123456789' and lit[62:] == (b'+/' if nm.startswith('DEFAULT') else b'-_')
+                ctx.check(ok, R, 'alphabet|' + nm, vd or enc, '64 distinct ASCII characters, RFC 4648 order, no \'=\'', 'alphabet %s is %r' % (nm, lit))
+            inv = next((v for v in walk(dbody) if v.get('kind') == 'VarDecl' and 'inverse' in (v.get('name') or '')), None)
+            okf = inv is not None and not inv.get('storageClass') and not inv.get('tls')
+            if inv is not None and not okf:
+                # a cached table is acceptable when the rebuild resets all 256 entries to invalid right before refilling
+                for c in walk(dbody):
+                    if c.get('kind') == 'CXXMemberCallExpr' and call_name(c) in ('assign',) and canon(member_call_object(c)) == inv.get('name'):
+                        a = call_args(c)
+                        if len(a) == 2 and int_value(a[0]) == 0x100 and (int_value(a[1]) or 0) & 0xFF == 0xFF:
+                            okf = 'reset'
+                    if c.get('kind') == 'CallExpr' and call_name(c) in ('memset',) and inv.get('name') in canon(call_args(c)[0]) and (int_value(call_args(c)[1]) or 0) & 0xFF == 0xFF and int_value(call_args(c)[2]) == 0x100:
                         okf = 'reset'
-                if c.get('kind') == 'CallExpr' and call_name(c) in ('memset',) and inv.get('name') in canon(call_args(c)[0]) and (int_value(call_args(c)[1]) or 0) & 0xFF == 0xFF and int_value(call_args(c)[2]) == 0x100:
-                    okf = 'reset'
-        if okf is True:
-            ce = next((x for x in walk(inv) if x.get('kind') == 'CXXConstructExpr'), None)
-            a = [x for x in kids(ce) if x.get('kind') != 'CXXDefaultArgExpr'] if ce is not None else []
-            okf = len(a) >= 2 and int_value(a[0]) == 0x100 and (int_value(a[1]) or 0) & 0xFF == 0xFF
-        ctx.check(bool(okf), R, 'inverse-table|fresh', inv or dec, 'a fresh 256-entry table, every entry 0xFF (invalid), per call',
-                  'the inverse table is %s: entries from a previous alphabet stay valid, so characters outside the requested alphabet are accepted' % ('static/thread_local (%s %s)' % (inv.get('storageClass'), inv.get('tls')) if inv is not None and (inv.get('storageClass') or inv.get('tls')) else 'not initialised to all-invalid'))
-        fills = [x for x in walk(dbody) if x.get('kind') in ('BinaryOperator', 'CXXOperatorCallExpr') and 'inverse_alphabet[' in canon(x) and (x.get('opcode') == '=' or call_name(x) == 'operator=')]
-        fl = next((lp for lp in walk(dbody) if lp.get('kind') == 'ForStmt' and any(x in fills for x in walk(lp))), None)
-        okl = fl is not None and nf(for_parts(fl)[2]) == '(x < 64)' and int_value(kids(next(v for v in walk(for_parts(fl)[0]) if v.get('kind') == 'VarDecl'))[-1]) == 0
-        padset = [x for x in fills if "inverse_alphabet[61]" in canon(x) or "inverse_alphabet['=']" in canon(x)]
-        okp = any((int_value(x['inner'][1]) if x.get('kind') == 'BinaryOperator' else int_value(x['inner'][2])) is not None and ((int_value(x['inner'][1]) if x.get('kind') == 'BinaryOperator' else int_value(x['inner'][2])) & 0xFF) == 0x80 for x in padset)
-        ctx.check(okl and okp, R, 'inverse-table|fill', fl or dec, 'table[alphabet[x]] = x for x < 64; table[\'=\'] = 0x80', 'inverse table construction changed')
+            if okf is True:
+                ce = next((x for x in walk(inv) if x.get('kind') == 'CXXConstructExpr'), None)
+                a = [x for x in kids(ce) if x.get('kind') != 'CXXDefaultArgExpr'] if ce is not None else []
+                okf = len(a) >= 2 and int_value(a[0]) == 0x100 and (int_value(a[1]) or 0) & 0xFF == 0xFF
+            ctx.check(bool(okf), R, 'inverse-table|fresh', inv or dec, 'a fresh 256-entry table, every entry 0xFF (invalid), per call',
+                      'the inverse table is %s: entries from a previous alphabet stay valid, so characters outside the requested alphabet are accepted' % ('static/thread_local (%s %s)' % (inv.get('storageClass'), inv.get('tls')) if inv is not None and (inv.get('storageClass') or inv.get('tls')) else 'not initialised to all-invalid'))
+            fills = [x for x in walk(dbody) if x.get('kind') in ('BinaryOperator', 'CXXOperatorCallExpr') and 'inverse_alphabet[' in canon(x) and (x.get('opcode') == '=' or call_name(x) == 'operator=')]
+            fl = next((lp for lp in walk(dbody) if lp.get('kind') == 'ForStmt' and any(x in fills for x in walk(lp))), None)
+            okl = fl is not None and nf(for_parts(fl)[2]) == '(x < 64)' and int_value(kids(next(v for v in walk(for_parts(fl)[0]) if v.get('kind') == 'VarDecl'))[-1]) == 0
+            padset = [x for x in fills if "inverse_alphabet[61]" in canon(x) or "inverse_alphabet['=']" in canon(x)]
+            okp = any((int_value(x['inner'][1]) if x.get('kind') == 'BinaryOperator' else int_value(x['inner'][2])) is not None and ((int_value(x['inner'][1]) if x.get('kind') == 'BinaryOperator' else int_value(x['inner'][2])) & 0xFF) == 0x80 for x in padset)
+            ctx.check(okl and okp, R, 'inverse-table|fill', fl or dec, 'table[alphabet[x]] = x for x < 64; table[\'=\'] = 0x80', 'inverse table construction changed')
 
-        # ---------------- R2 validation
-        R = 'C11-R2'
-        for ps in by_blk.values():
-            nout = len(ps)
-            label = {3: 'full', 2: 'pad1', 1: 'pad2'}[nout]
-            for j, p in enumerate(ps):
-                used = {nm for nm, v in syms.items() if any((ref_decl(x) or {}).get('id') == v['id'] for x in walk(call_args(p)[0]))}
-                have = set()
-                for n_, pol in atoms(path_facts(p)):
-                    r = relation(n_, pol)
-                    if r and ref_decl(r[0]) and int_value(r[2]) is not None:
-                        nm = ref_decl(r[0]).get('name')
-                        c = int_value(r[2])
-                        if (r[1] == '<' and c <= 0x40) or (r[1] == '<=' and c < 0x40):
-                            have.add(nm)
-                miss = sorted(used - have)
-                ctx.check(not miss, R, 'validated|%s|byte%d' % (label, j), p, 'symbols %s all tested < 0x40 before use' % sorted(used),
-                          'output byte %d of the %s branch uses %s without a dominating `>= 0x40` test: an invalid character (0xFF) or a pad (0x80) in that position is decoded silently' % (j, label, miss))
-        thr = [t for t in walk(dbody) if t.get('kind') == 'CXXThrowExpr']
-        ctx.check(thr and all('invalid_argument' in (dtype(kids(t)[0]) or '') for t in thr), R, 'throws|invalid_argument-only', dec, '%d throw sites, all invalid_argument' % len(thr), 'base64_decode throws %s' % sorted({dtype(kids(t)[0]) for t in thr if kids(t)}))
-        main_loop = next(lp for lp in walk(dbody) if lp.get('kind') == 'ForStmt' and any(x in dpush for x in walk(lp)))
-        sz = [s for s in preceding_statements(main_loop) if s.get('kind') == 'IfStmt' and nf(if_parts(s)[0]) in ('(3 & size)', '(size & 3)', '((size & 3) != 0)', '((size % 4) != 0)', '(size % 4)') and not falls_through(if_parts(s)[1])]
-        ctx.check(len(sz) == 1, R, 'length|multiple-of-4', sz[0] if sz else dec, 'size & 3 rejected before decoding', 'the length check `size & 3` no longer dominates the decode loop')
-        # pad in 4th position only in the last block; pad in 3rd only together with the 4th
-        padc = [x for x in walk(loop_body(main_loop)) if x.get('kind') == 'IfStmt' and nf(if_parts(x)[0]) in ('(128 == c4)', '(c4 == 128)')]
-        okp = len(padc) == 1
-        if okp:
-            then = if_parts(padc[0])[1]
-            first = stmts_of(then)[0]
-            okp = first.get('kind') == 'IfStmt' and nf(if_parts(first)[0]) in ('((end_offset - 4) != offset)', '(offset != (end_offset - 4))') and not falls_through(if_parts(first)[1])
-            c3t = [x for x in walk(loop_body(main_loop)) if x.get('kind') == 'IfStmt' and nf(if_parts(x)[0]) in ('(128 == c3)', '(c3 == 128)')]
-            okp = okp and len(c3t) == 1 and any(a is then for a in ancestors(c3t[0]))
-        if okp:
-            ctx.ok(R, 'padding|placement', padc[0] if padc else dec, 'pad in 4th place only in the last block; pad in 3rd place only inside the 4th-place-pad branch')
-        else:
-            deferred.append((R, 'padding|placement', padc[0] if padc else dec, 'the padding tests are not written as `if (c4 == 0x80) { if (offset != end_offset - 4) throw ...; if (c3 == 0x80) ...`', 'padding placement rule changed'))
-        eo = next((v for v in walk(dbody) if v.get('kind') == 'VarDecl' and v.get('name') == 'end_offset'), None)
-        if eo is not None and nf(kids(eo)[-1]) in ('(size & -4)', '(-4 & size)', '(size & ~3)', '(~3 & size)', 'size'):
-            ctx.ok(R, 'blocks|all', eo, 'every 4-character block is decoded')
-        else:
-            deferred.append((R, 'blocks|all', eo or dec, 'the block loop bound is %s' % (nf(kids(eo)[-1]) if eo else None), 'end_offset is %s' % (nf(kids(eo)[-1]) if eo else None)))
+            # ---------------- R2 validation
+            R = 'C11-R2'
+            for ps in by_blk.values():
+                nout = len(ps)
+                label = {3: 'full', 2: 'pad1', 1: 'pad2'}[nout]
+                for j, p in enumerate(ps):
+                    used = {nm for nm, v in syms.items() if any((ref_decl(x) or {}).get('id') == v['id'] for x in walk(call_args(p)[0]))}
+                    have = set()
+                    for n_, pol in atoms(path_facts(p)):
+                        r = relation(n_, pol)
+                        if r and ref_decl(r[0]) and int_value(r[2]) is not None:
+                            nm = ref_decl(r[0]).get('name')
+                            c = int_value(r[2])
+                            if (r[1] == '<' and c <= 0x40) or (r[1] == '<=' and c < 0x40):
+                                have.add(nm)
+                    miss = sorted(used - have)
+                    ctx.check(not miss, R, 'validated|%s|byte%d' % (label, j), p, 'symbols %s all tested < 0x40 before use' % sorted(used),
+                              'output byte %d of the %s branch uses %s without a dominating `>= 0x40` test: an invalid character (0xFF) or a pad (0x80) in that position is decoded silently' % (j, label, miss))
+            thr = [t for t in walk(dbody) if t.get('kind') == 'CXXThrowExpr']
+            ctx.check(thr and all('invalid_argument' in (dtype(kids(t)[0]) or '') for t in thr), R, 'throws|invalid_argument-only', dec, '%d throw sites, all invalid_argument' % len(thr), 'base64_decode throws %s' % sorted({dtype(kids(t)[0]) for t in thr if kids(t)}))
+            main_loop = next(lp for lp in walk(dbody) if lp.get('kind') == 'ForStmt' and any(x in dpush for x in walk(lp)))
+            sz = [s for s in preceding_statements(main_loop) if s.get('kind') == 'IfStmt' and nf(if_parts(s)[0]) in ('(3 & size)', '(size & 3)', '((size & 3) != 0)', '((size % 4) != 0)', '(size % 4)') and not falls_through(if_parts(s)[1])]
+            ctx.check(len(sz) == 1, R, 'length|multiple-of-4', sz[0] if sz else dec, 'size & 3 rejected before decoding', 'the length check `size & 3` no longer dominates the decode loop')
+            # pad in 4th position only in the last block; pad in 3rd only together with the 4th
+            padc = [x for x in walk(loop_body(main_loop)) if x.get('kind') == 'IfStmt' and nf(if_parts(x)[0]) in ('(128 == c4)', '(c4 == 128)')]
+            okp = len(padc) == 1
+            if okp:
+                then = if_parts(padc[0])[1]
+                first = stmts_of(then)[0]
+                okp = first.get('kind') == 'IfStmt' and nf(if_parts(first)[0]) in ('((end_offset - 4) != offset)', '(offset != (end_offset - 4))') and not falls_through(if_parts(first)[1])
+                c3t = [x for x in walk(loop_body(main_loop)) if x.get('kind') == 'IfStmt' and nf(if_parts(x)[0]) in ('(128 == c3)', '(c3 == 128)')]
+                okp = okp and len(c3t) == 1 and any(a is then for a in ancestors(c3t[0]))
+            if okp:
+                ctx.ok(R, 'padding|placement', padc[0] if padc else dec, 'pad in 4th place only in the last block; pad in 3rd place only inside the 4th-place-pad branch')
+            else:
+                deferred.append((R, 'padding|placement', padc[0] if padc else dec, 'the padding tests are not written as `if (c4 == 0x80) { if (offset != end_offset - 4) throw ...; if (c3 == 0x80) ...`', 'padding placement rule changed'))
+            eo = next((v for v in walk(dbody) if v.get('kind') == 'VarDecl' and v.get('name') == 'end_offset'), None)
+            if eo is not None and nf(kids(eo)[-1]) in ('(size & -4)', '(-4 & size)', '(size & ~3)', '(~3 & size)', 'size'):
+                ctx.ok(R, 'blocks|all', eo, 'every 4-character block is decoded')
+            else:
+                deferred.append((R, 'blocks|all', eo or dec, 'the block loop bound is %s' % (nf(kids(eo)[-1]) if eo else None), 'end_offset is %s' % (nf(kids(eo)[-1]) if eo else None)))
 
 
-    n_before = len(ctx.obs)
-    try:
-        decoder_structure()
-    except (_Shape, StopIteration) as e_:
-        if r6_decides:
-            ctx.undecided('C11-R2', 'decoder|structure', dec, 'the decoder is not written in the shape the structural rules read (%s): its behaviour is decided by evaluation (C11-R6)' % (e_ or 'anchor statement missing'))
-            ctx.rules['C11-R2'] = (ctx.rules['C11-R2'][0], 0)      # the instances of the structural rule are exactly what was deferred
-            ctx.rules['C11-R1'] = (ctx.rules['C11-R1'][0], 5)
-        else:
-            raise AnalysisBroken(str(e_))
-    # structural mismatches are violations only when the evaluation cannot vouch for the behaviour
-    for R_, key_, node_, why_, bad_ in deferred:
-        if r6_decides:
-            ctx.undecided(R_, key_, node_, why_ + ': the behaviour is decided by evaluation (C11-R6)')
-        else:
-            ctx.bad(R_, key_, node_, bad_)
+        n_before = len(ctx.obs)
+        try:
+            decoder_structure()
+        except (_Shape, StopIteration) as e_:
+            if r6_decides:
+                ctx.undecided('C11-R2', 'decoder|structure', dec, 'the decoder is not written in the shape the structural rules read (%s): its behaviour is decided by evaluation (C11-R6)' % (e_ or 'anchor statement missing'))
+                ctx.rules['C11-R2'] = (ctx.rules['C11-R2'][0], 0)      # the instances of the structural rule are exactly what was deferred
+                ctx.rules['C11-R1'] = (ctx.rules['C11-R1'][0], 5)
+            else:
+                raise AnalysisBroken(str(e_))
+        # structural mismatches are violations only when the evaluation cannot vouch for the behaviour
+        for R_, key_, node_, why_, bad_ in deferred:
+            if r6_decides:
+                ctx.undecided(R_, key_, node_, why_ + ': the behaviour is decided by evaluation (C11-R6)')
+            else:
+                ctx.bad(R_, key_, node_, bad_)
 
     # ---------------- R3 rot13
-    R = 'C11-R3'
-    rot = [f for f in u.func('phosg::rot13') if len(params_of(f)) == 2][0]
-    ctx.fn('phosg::rot13')
-    from peval import PEval
-    PE = PEval([u])
-    PEs = PEval([us])
-    lp = rot
-    for b in range(256):
-        em, why_ = fold_per_byte(PE, rot, b, [], 'rot13', lit_arg=True)
-        if 97 <= b <= 122:
-            want = 97 + (b - 97 + 13) % 26
-        elif 65 <= b <= 90:
-            want = 65 + (b - 65 + 13) % 26
-        else:
-            want = b
-        ctx.check(em == bytes([want]), R, 'rot13|0x%02X' % b, lp, '0x%02X -> 0x%02X' % (b, want), why_ or 'rot13 maps byte 0x%02X to %s, expected 0x%02X (%s)' % (b, em.hex() if em is not None else 'an undecidable result', want, 'only ASCII letters may change' if want == b else 'letters rotate by 13 within their case'), nontrivial=(want != b or b in (64, 91, 96, 123, 0xC1, 0xE1)))
+    with ctx.section('C11-R3', 'C11'):
+        R = 'C11-R3'
+        rot = [f for f in u.func('phosg::rot13') if len(params_of(f)) == 2][0]
+        ctx.fn('phosg::rot13')
+        from peval import PEval
+        PE = PEval([u])
+        PEs = PEval([us])
+        lp = rot
+        for b in range(256):
+            em, why_ = fold_per_byte(PE, rot, b, [], 'rot13', lit_arg=True)
+            if 97 <= b <= 122:
+                want = 97 + (b - 97 + 13) % 26
+            elif 65 <= b <= 90:
+                want = 65 + (b - 65 + 13) % 26
+            else:
+                want = b
+            ctx.check(em == bytes([want]), R, 'rot13|0x%02X' % b, lp, '0x%02X -> 0x%02X' % (b, want), why_ or 'rot13 maps byte 0x%02X to %s, expected 0x%02X (%s)' % (b, em.hex() if em is not None else 'an undecidable result', want, 'only ASCII letters may change' if want == b else 'letters rotate by 13 within their case'), nontrivial=(want != b or b in (64, 91, 96, 123, 0xC1, 0xE1)))
 
     # ---------------- R4 escapers
-    R = 'C11-R4'
-    Is = TableEval(us)
+    with ctx.section('C11-R4', 'C11'):
+        R = 'C11-R4'
+        Is = TableEval(us)
 
-    def unescape_pct(t):
-        if len(t) == 1 and t != b'%':
-            return t[0]
-        if len(t) == 3 and t[0:1] == b'%' and all(c in b'0123456789ABCDEF' for c in t[1:]):
-            return int(t[1:].decode(), 16)
-        return None
+        def unescape_pct(t):
+            if len(t) == 1 and t != b'%':
+                return t[0]
+            if len(t) == 3 and t[0:1] == b'%' and all(c in b'0123456789ABCDEF' for c in t[1:]):
+                return int(t[1:].decode(), 16)
+            return None
 
-    def unescape_c(t):
-        named = {b'\\"': 34, b"\\'": 39, b'\\\\': 92, b'\\t': 9, b'\\r': 13, b'\\n': 10, b'\\f': 12, b'\\b': 8, b'\\a': 7, b'\\v': 11}
-        if t in named:
-            return named[t]
-        if len(t) == 4 and t[:2] == b'\\x' and all(c in b'0123456789ABCDEF' for c in t[2:]):
-            return int(t[2:].decode(), 16)
-        if len(t) == 1 and t not in (b'\\',):
-            return t[0]
-        return None
-    # escape_url
-    f = us.func('phosg::escape_url')[0]
-    ctx.fn('phosg::escape_url')
-    lp = f
-    for fl_ in (0, 1):
+        def unescape_c(t):
+            named = {b'\\"': 34, b"\\'": 39, b'\\\\': 92, b'\\t': 9, b'\\r': 13, b'\\n': 10, b'\\f': 12, b'\\b': 8, b'\\a': 7, b'\\v': 11}
+            if t in named:
+                return named[t]
+            if len(t) == 4 and t[:2] == b'\\x' and all(c in b'0123456789ABCDEF' for c in t[2:]):
+                return int(t[2:].decode(), 16)
+            if len(t) == 1 and t not in (b'\\',):
+                return t[0]
+            return None
+        # escape_url
+        f = us.func('phosg::escape_url')[0]
+        ctx.fn('phosg::escape_url')
+        lp = f
+        for fl_ in (0, 1):
+            for b in range(256):
+                em, why_ = fold_per_byte(PEs, f, b, [fl_], 'escape_url')
+                raw_ok = (48 <= b <= 57 or 65 <= b <= 90 or 97 <= b <= 122 or b in b'-_.~=&' or (b == 47 and not fl_))
+                ok = em is not None and unescape_pct(em) == b and ((len(em) == 1) == raw_ok)
+                ctx.check(ok, R, 'escape_url|slash=%d|0x%02X' % (fl_, b), lp, '%r' % (em.decode('latin1') if em else None),
+                          why_ or 'escape_url(escape_slash=%d) renders byte 0x%02X as %r; expected %s' % (fl_, b, em.decode('latin1') if em is not None else None, 'the raw character' if raw_ok else '%%%02X' % b), nontrivial=not raw_ok or b in (45, 47, 95))
+        # escape_quotes
+        f = us.func('phosg::escape_quotes')[0]
+        ctx.fn('phosg::escape_quotes')
+        lp = f
         for b in range(256):
-            em, why_ = fold_per_byte(PEs, f, b, [fl_], 'escape_url')
-            raw_ok = (48 <= b <= 57 or 65 <= b <= 90 or 97 <= b <= 122 or b in b'-_.~=&' or (b == 47 and not fl_))
-            ok = em is not None and unescape_pct(em) == b and ((len(em) == 1) == raw_ok)
-            ctx.check(ok, R, 'escape_url|slash=%d|0x%02X' % (fl_, b), lp, '%r' % (em.decode('latin1') if em else None),
-                      why_ or 'escape_url(escape_slash=%d) renders byte 0x%02X as %r; expected %s' % (fl_, b, em.decode('latin1') if em is not None else None, 'the raw character' if raw_ok else '%%%02X' % b), nontrivial=not raw_ok or b in (45, 47, 95))
-    # escape_quotes
-    f = us.func('phosg::escape_quotes')[0]
-    ctx.fn('phosg::escape_quotes')
-    lp = f
-    for b in range(256):
-        em, why_ = fold_per_byte(PEs, f, b, [], 'escape_quotes')
-        raw_allowed = 0x20 <= b <= 0x7E and b != 34
-        # the property only requires: no raw quote, no raw non-printable byte (a raw backslash is permitted)
-        ok = em is not None and ((len(em) == 1 and em[0] == b and raw_allowed) or (len(em) > 1 and unescape_c(em) == b))
-        ctx.check(ok, R, 'escape_quotes|0x%02X' % b, lp, '%r' % (em.decode('latin1') if em else None),
-                  why_ or 'escape_quotes renders byte 0x%02X as %r: %s' % (b, em.decode('latin1') if em is not None else None, 'a raw quote or non-printable byte is emitted' if em is not None and len(em) == 1 else 'the escape does not decode to the byte'), nontrivial=not raw_allowed)
-    # escape_controls
-    f = us.func('phosg::escape_controls')[0]
-    ctx.fn('phosg::escape_controls')
-    lp = f
-    for fl_ in (0, 1):
-        for b in range(256):
-            em, why_ = fold_per_byte(PEs, f, b, [fl_], 'escape_controls')
-            raw_allowed = (0x20 <= b <= 0x7E and b not in (34, 39, 92)) or (b >= 0x80 and not fl_)
-            ok = em is not None and unescape_c(em) == b and (len(em) > 1 or raw_allowed)
-            ctx.check(ok, R, 'escape_controls|non_ascii=%d|0x%02X' % (fl_, b), lp, '%r' % (em.decode('latin1') if em else None),
-                      why_ or 'escape_controls(escape_non_ascii=%d) renders byte 0x%02X as %r: %s' % (fl_, b, em.decode('latin1') if em is not None else None, 'a raw control / DEL / quote / backslash byte is emitted' if em is not None and len(em) == 1 else 'the escape does not decode to the byte'), nontrivial=not raw_allowed)
+            em, why_ = fold_per_byte(PEs, f, b, [], 'escape_quotes')
+            raw_allowed = 0x20 <= b <= 0x7E and b != 34
+            # the property only requires: no raw quote, no raw non-printable byte (a raw backslash is permitted)
+            ok = em is not None and ((len(em) == 1 and em[0] == b and raw_allowed) or (len(em) > 1 and unescape_c(em) == b))
+            ctx.check(ok, R, 'escape_quotes|0x%02X' % b, lp, '%r' % (em.decode('latin1') if em else None),
+                      why_ or 'escape_quotes renders byte 0x%02X as %r: %s' % (b, em.decode('latin1') if em is not None else None, 'a raw quote or non-printable byte is emitted' if em is not None and len(em) == 1 else 'the escape does not decode to the byte'), nontrivial=not raw_allowed)
+        # escape_controls
+        f = us.func('phosg::escape_controls')[0]
+        ctx.fn('phosg::escape_controls')
+        lp = f
+        for fl_ in (0, 1):
+            for b in range(256):
+                em, why_ = fold_per_byte(PEs, f, b, [fl_], 'escape_controls')
+                raw_allowed = (0x20 <= b <= 0x7E and b not in (34, 39, 92)) or (b >= 0x80 and not fl_)
+                ok = em is not None and unescape_c(em) == b and (len(em) > 1 or raw_allowed)
+                ctx.check(ok, R, 'escape_controls|non_ascii=%d|0x%02X' % (fl_, b), lp, '%r' % (em.decode('latin1') if em else None),
+                          why_ or 'escape_controls(escape_non_ascii=%d) renders byte 0x%02X as %r: %s' % (fl_, b, em.decode('latin1') if em is not None else None, 'a raw control / DEL / quote / backslash byte is emitted' if em is not None and len(em) == 1 else 'the escape does not decode to the byte'), nontrivial=not raw_allowed)
     # ---------------- R5 netloc round trip, evaluated for every port (E-TABLE; the host only passes
-    # through find(':') / substr, so one colon-free host per length class stands for all of them)
-    R = 'C11-R5'
-    un = ctx.unit(repo_unit('Network.cc'))
-    rn = [f_ for f_ in un.func('phosg::render_netloc') if body_of(f_) is not None]
-    pn = [f_ for f_ in un.func('phosg::parse_netloc') if body_of(f_) is not None]
-    ctx.require(len(rn) == 1 and len(pn) == 1, 'render_netloc / parse_netloc not found')
-    ctx.fn('phosg::render_netloc')
-    ctx.fn('phosg::parse_netloc')
-    from peval import PEval, Str as PStr, Undecided as PUnd, Fault as PFault, Thrown as PThrown
-    PN = PEval([un, us], max_depth=8)
-    ports = list(range(0, 65536)) if ctx.tier == 'thorough' else sorted(set([0, 1, 2, 9, 10, 11, 99, 100, 101, 255, 256, 999, 1000, 1001, 9999, 10000, 32767, 32768, 65534, 65535] + list(range(7, 65536, 251))))
-    hosts = [b'h', b'example.com']
-    n_ok = 0
-    first_bad = None
-    und = None
-    for host in hosts:
-        for port in ports:
-            try:
-                txt = PN.call_with(rn[0], [PStr(host), port])
-                got = PN.call_with(pn[0], [txt, 0])
-            except PThrown as e_:
-                first_bad = first_bad or (host, port, 'parse_netloc(render_netloc(...)) throws: %s' % e_, e_.node)
-                continue
-            except PFault as e_:
-                first_bad = first_bad or (host, port, 'evaluation faults: %s' % e_, None)
-                continue
-            except PUnd as e_:
-                und = str(e_)
+    with ctx.section('C11-R5', 'C11'):
+        # through find(':') / substr, so one colon-free host per length class stands for all of them)
+        R = 'C11-R5'
+        un = ctx.unit(repo_unit('Network.cc'))
+        rn = [f_ for f_ in un.func('phosg::render_netloc') if body_of(f_) is not None]
+        pn = [f_ for f_ in un.func('phosg::parse_netloc') if body_of(f_) is not None]
+        ctx.require(len(rn) == 1 and len(pn) == 1, 'render_netloc / parse_netloc not found')
+        ctx.fn('phosg::render_netloc')
+        ctx.fn('phosg::parse_netloc')
+        from peval import PEval, Str as PStr, Undecided as PUnd, Fault as PFault, Thrown as PThrown
+        PN = PEval([un, us], max_depth=8)
+        ports = list(range(0, 65536)) if ctx.tier == 'thorough' else sorted(set([0, 1, 2, 9, 10, 11, 99, 100, 101, 255, 256, 999, 1000, 1001, 9999, 10000, 32767, 32768, 65534, 65535] + list(range(7, 65536, 251))))
+        hosts = [b'h', b'example.com']
+        n_ok = 0
+        first_bad = None
+        und = None
+        for host in hosts:
+            for port in ports:
+                try:
+                    txt = PN.call_with(rn[0], [PStr(host), port])
+                    got = PN.call_with(pn[0], [txt, 0])
+                except PThrown as e_:
+                    first_bad = first_bad or (host, port, 'parse_netloc(render_netloc(...)) throws: %s' % e_, e_.node)
+                    continue
+                except PFault as e_:
+                    first_bad = first_bad or (host, port, 'evaluation faults: %s' % e_, None)
+                    continue
+                except PUnd as e_:
+                    und = str(e_)
+                    break
+                ok_ = isinstance(got, tuple) and got[0] == 'pair' and isinstance(got[1], PStr) and bytes(got[1].b) == host and got[2] == port
+                if ok_:
+                    n_ok += 1
+                else:
+                    first_bad = first_bad or (host, port, 'it renders %r and parses back to %r' % (bytes(txt.b).decode('latin1') if isinstance(txt, PStr) else txt, (bytes(got[1].b).decode('latin1'), got[2]) if isinstance(got, tuple) and len(got) == 3 and isinstance(got[1], PStr) else got), None)
+            if und:
                 break
-            ok_ = isinstance(got, tuple) and got[0] == 'pair' and isinstance(got[1], PStr) and bytes(got[1].b) == host and got[2] == port
-            if ok_:
-                n_ok += 1
-            else:
-                first_bad = first_bad or (host, port, 'it renders %r and parses back to %r' % (bytes(txt.b).decode('latin1') if isinstance(txt, PStr) else txt, (bytes(got[1].b).decode('latin1'), got[2]) if isinstance(got, tuple) and len(got) == 3 and isinstance(got[1], PStr) else got), None)
         if und:
-            break
-    if und:
-        ctx.undecided(R, 'netloc|round-trip', pn[0], 'render_netloc / parse_netloc could not be evaluated (%s)' % und)
-    elif first_bad:
-        ctx.bad(R, 'netloc|round-trip', first_bad[3] or pn[0], 'netloc round trip fails for (%r, %d): %s' % (first_bad[0].decode(), first_bad[1], first_bad[2]))
-    else:
-        ctx.ok(R, 'netloc|round-trip', pn[0], 'parse_netloc(render_netloc(host, port)) == (host, port) for %d (host, port) pairs (%s ports)' % (n_ok, 'all 65536' if ctx.tier == 'thorough' else 'boundary and strided'))
+            ctx.undecided(R, 'netloc|round-trip', pn[0], 'render_netloc / parse_netloc could not be evaluated (%s)' % und)
+        elif first_bad:
+            ctx.bad(R, 'netloc|round-trip', first_bad[3] or pn[0], 'netloc round trip fails for (%r, %d): %s' % (first_bad[0].decode(), first_bad[1], first_bad[2]))
+        else:
+            ctx.ok(R, 'netloc|round-trip', pn[0], 'parse_netloc(render_netloc(host, port)) == (host, port) for %d (host, port) pairs (%s ports)' % (n_ok, 'all 65536' if ctx.tier == 'thorough' else 'boundary and strided'))
     ctx.note('R3 and R4 are exhaustive over the 256 byte values (x flag values) on the extracted chains. R5 evaluates the netloc round trip for every port in the thorough tier (boundary + strided ports in the quick tier).')
 
 
